@@ -41,9 +41,6 @@ func c02Gen(g *core.Gen) {
 		nrec := nRecFiles(cfg.Blocks)
 		menu := append(scen.DataMenu(cfg.Sizes, cfg.Slice, nrec, false), scen.RecMenu(nrec)...)
 		d := D
-		if ci > 0 && d > 2 {
-			d = 2
-		}
 		for k := 0; k <= d; k++ {
 			forCombos(len(menu), k, func(ix []int) {
 				if g.Stopped() {
